@@ -149,3 +149,58 @@ Section Cited2.
     - cbn. intros [H0|[H0|[]]]; discriminate H0.
   Qed.
 End Cited2.
+
+(* ------------------------------------------------------------------ interface insufficient; units names not unique *)
+
+Section Cited3.
+  Variable fx : fixes.
+  Variable ueq : world -> string -> string -> option bool.
+
+  Lemma interface_issues_rule : forall L me i, In i (validate_variable_interface false L me) -> rule_of i = V_MAP_VARIABLES_ELEMENT.
+  Proof.
+    intros L me i H. unfold validate_variable_interface in H.
+    destruct (interface_type_for (iface_required false L me (v_eqs (l_var me)) false false)).
+    - apply in_flat_map in H. destruct H as [e [_ H]]. destruct (lookup_var L (e_to e)) as [o|]; [|destruct H].
+      destruct (reachable me o); [destruct H|]. destruct H as [H|[]]. subst i. reflexivity.
+    - destruct (contains _ _); [destruct H|]. destruct H as [H|[]]. subst i. reflexivity.
+    - destruct (contains _ _); [destruct H|]. destruct H as [H|[]]. subst i. reflexivity.
+    - destruct (contains _ _); [destruct H|]. destruct H as [H|[]]. subst i. reflexivity.
+  Qed.
+
+  (** every mapping of the variable is fine (located, reachable) but its interface attribute does not allow them *)
+  Theorem interface_insufficient_cited : forall W me, In me (model_locs (model_at W 0)) -> l_import me = false ->
+    v_eqs (l_var me) <> [] -> valid_iface (v_iface (l_var me)) ->
+    Forall (fun e => exists o, lookup_var (model_locs (model_at W 0)) (e_to e) = Some o
+                               /\ (Sibling me o \/ ChildOf me o \/ ChildOf o me)) (v_eqs (l_var me)) ->
+    ~ InterfaceOK (model_locs (model_at W 0)) me ->
+    In (Error, V_MAP_VARIABLES_ELEMENT) (validate fx ueq false W).
+  Proof.
+    intros W me Hme Himp Hne Hvi HG HnI. set (L := model_locs (model_at W 0)) in *.
+    assert (HES : validate_equivalence_structure L me = []).
+    { apply structure_nil. rewrite Forall_forall in *. intros e He. destruct (HG e He) as [o [Ho _]]. exists o. exact Ho. }
+    destruct (validate_variable_interface false L me) as [|i rest] eqn:EVI.
+    - exfalso. apply HnI. assert (H : validate_variable_interface false L me ++ validate_equivalence_structure L me = []) by (rewrite EVI, HES; reflexivity).
+      apply (interface_structure_nil ueq W L me Hne Hvi) in H. exact (proj2 H).
+    - assert (Hi : In i (validate_raw fx ueq false W)).
+      { apply (connection_issue_cited fx ueq false W me i Hme Himp Hne). apply in_or_app. left. fold L. rewrite EVI. left. reflexivity. }
+      destruct (raw_cited fx ueq false W _ Hi) as [r [Hr1 Hr2]].
+      rewrite (interface_issues_rule L me i) in Hr2 by (rewrite EVI; left; reflexivity).
+      apply same_class_eq in Hr2; [subst r; exact Hr1|]. cbn. intros [H0|[H0|[]]]; discriminate H0.
+  Qed.
+
+  (** two units of the model with the same name: one of the two "units name must be unique" rules is cited *)
+  Theorem units_name_unique_cited : forall early W u, In u (m_units (model_at W 0)) ->
+    1 < count_if (fun t => String.eqb (u_name t) (u_name u)) (m_units (model_at W 0)) ->
+    In (Error, V_UNITS_NAME_UNIQUE) (validate fx ueq early W) \/ In (Error, V_IMPORT_UNITS_NAME_UNIQUE) (validate fx ueq early W).
+  Proof.
+    intros early W u Hu Hc.
+    assert (Hi : In (Keyed (KUnitsName (is_import_u u) (u_name u))) (validate_units (units_fuel W) W 0 true [] u ORIGIN)).
+    { pose proof (units_fuel_enough W) as Hf. destruct (units_fuel W) as [|f] eqn:E; [lia|].
+      cbn [validate_units local_cycle existsb]. apply in_or_app. right. apply in_or_app. left.
+      apply Nat.ltb_lt in Hc. rewrite Hc. left. reflexivity. }
+    destruct (units_reached fx ueq early W u _ Hu Hi) as [r [Hr Hcl]]. cbn [rule_of key_rule] in Hcl.
+    destruct Hcl as [Hcl|[_ Hcl]].
+    - subst r. destruct (is_import_u u); [right | left]; exact Hr.
+    - cbn in Hcl. destruct Hcl as [Hcl|[Hcl|[]]]; subst r; [left | right]; exact Hr.
+  Qed.
+End Cited3.
